@@ -432,7 +432,7 @@ def large_streams(ctx, quick, add, CNF, OPB):
     # ---- (a) parity on 15..18 literals: 2^(n-1) clauses, compared in order ----
     if quick:
         plan = [(15, 0, 'consecutive-from-250', ('CNF', 'OPB')), (16, 1, 'mixed', ('CNF',)), (17, 0, 'mixed-large-values', ('CNF',)),
-                (17, 1, 'consecutive', ('CNF',)), (16, 0, 'opposite', ('OPB',))]
+                (17, 1, 'consecutive', ('CNF',)), (16, 0, 'opposite', ('OPB',)), (17, 1, 'mixed', ('OPB',))]
     else:
         plan = [(n, c, kind, ('CNF', 'OPB') if n <= 16 else ('CNF',)) for n in (15, 16, 17, 18) for c in (0, 1)
                 for kind in (('consecutive', 'mixed-large-values') if n == 18 else
